@@ -157,3 +157,13 @@ META["C14"]["text"] += " TestC14Config hands the lookup a copy of the server's l
 META["C15"]["text"] += " With a configured upstream Accept-Encoding (and no Range request in the case) the upstream answers gzip-encoded; the client must still receive the full resource."
 META["C17"]["text"] += " After the probes TestC17Apply applies the same accepted configuration three more times while four clients keep requesting every location: nothing may become unresolvable in between."
 META["C18"]["text"] += " A quarter of TestC18's scenarios run on the fault-injecting store (failing deletes only): a purge of all caches must not depend on the first cache's store."
+# round 11
+META["C01"]["text"] += " A quarter of TestC01ColdBurst's cases are bursts of 130-600 requests behind a fetcher that takes 10-30 ms ('any number of concurrent requests')."
+META["C04"]["text"] += " TestC04Location (real clock): a location whose respHeaders add a more restrictive Cache-Control (s-maxage) than the upstream's; the stored response lives as long as the response pike hands out says."
+META["C12"]["text"] += " zst streams with a leading or trailing skippable frame are part of the valid streams."
+META["C15"]["text"] += " A Range header must reach the upstream on every request that is not a cold cacheable fetch (hit-for-pass, passed)."
+META["C16"]["text"] += " One scenario in six removes a cache (its servers move to another cache for one configuration) and creates it again: the re-created memory-only cache must be as empty as after a fresh start."
+META["C18"]["text"] += " TestC18Store judges C08's kill/restart histories (real badger, keys whose URI is a proper prefix of another key's, admin purges, an 8-entry memory) for 'other keys keep their entries': within one instance a fresh cacheable key is not fetched again when only other keys were purged in between."
+META["C18"]["note"] = (META["C18"].get("note") or "") + "; TestC18Store leaves out keys longer than a badger key (never persisted), requests within 1.5 s of the expiry and keys with overlapping requests"
+META["C19"]["text"] += " A third of the cases save the configuration with config.Write and apply what config.Read returns (as the admin page does)."
+META["C20"]["text"] += " Two of ten stress keys come zst-encoded from the upstream (decoded by pike on receipt, concurrently)."
